@@ -668,9 +668,11 @@ func (x *Exec) applyContract(st *State, in ssa.Instruction, fc *FuncContract, f 
 		pkg = f.Pkg.Pkg
 	}
 	pre := st.clone()
+	var calleeDefs map[string]*FunDecl
 	mk := func(s *State) *EvalCtx {
-		return &EvalCtx{x: x, prog: x.prog, st: s, old: pre, vars: vars, pkg: pkg, noLocals: true}
+		return &EvalCtx{x: x, prog: x.prog, st: s, old: pre, vars: vars, pkg: pkg, noLocals: true, localDefs: calleeDefs}
 	}
+	calleeDefs = x.instantiateDefs(st, fc, func() *EvalCtx { return mk(pre) })
 	ord := x.callOrd[in]
 	for _, c := range fc.Requires {
 		ctx := mk(st)
